@@ -41,6 +41,16 @@ def book(name, what, tiers=("quick", "thorough"), bounds="", timeout=1500, **kw)
         d["covers"] = ["cover.existing_new_order_placed"]
     elif "second_placement_noop" in name:
         d["covers"] = ["cover.replace_active", "cover.replace_rejected"]
+    elif "modify_volume_only" in name:
+        d["covers"] = ["cover.pure_reduction", "cover.equal_volume_requeues", "cover.modify_non_active"]
+    elif "modify_with_price" in name:
+        d["covers"] = ["cover.modify_trades", "cover.repriced_partially_executes_then_rests", "cover.modify_non_active"]
+    elif "modify" in name and ("_off" in name or "disabled" in name):
+        d["covers"] = ["cover.pure_reduction", "cover.equal_volume_requeues", "cover.modify_non_active"]
+    elif "uncrossed_modify" in name:
+        d["covers"] = ["cover.pure_reduction", "cover.modify_trades", "cover.modify_non_active"]
+    elif "modify" in name:
+        d["covers"] = ["cover.pure_reduction", "cover.modify_trades", "cover.equal_volume_requeues", "cover.repriced_partially_executes_then_rests", "cover.modify_non_active"]
     d.update(kw)
     return d
 
